@@ -172,6 +172,25 @@ def _run_bg(case):
                              out.attrs.get("medium_index") == raw.attrs.get("medium_index") and
                              out.attrs.get("illum_wavelen") == raw.attrs.get("illum_wavelen"))
     flags["noise_from_bg_when_missing"] = bool(out.attrs.get("noise_sd") == 0.07)
+    # a background of the same shape and spacing taken somewhere else (other pixel coordinates) is not a background of this image:
+    # refused, or divided pixel by pixel -- never a silently smaller picture of the overlap
+    from holopy.core.errors import BadImage
+    if raw.sizes["x"] > 2:
+        moved = bg.assign_coords(x=bg.x.values + 2 * sp)
+        moved.attrs = dict(bg.attrs)
+        try:
+            om = bg_correct(raw, moved)
+            flags["background_elsewhere_refused_or_pixelwise"] = bool(om.shape == raw.shape)
+        except BadImage:
+            flags["background_elsewhere_refused_or_pixelwise"] = True
+        # ... while coordinates that differ by rounding only (a crop computed another way) are the same pixels
+        near = bg.assign_coords(x=(bg.x.values / 3.0) * 3.0 + 0.0, y=bg.y.values * (1 + 2e-16))
+        near.attrs = dict(bg.attrs)
+        try:
+            on = bg_correct(raw, near)
+            flags["coordinates_equal_to_rounding_accepted"] = bool(on.shape == raw.shape)
+        except BadImage:
+            flags["coordinates_equal_to_rounding_accepted"] = False
     raw2 = update_metadata(raw, noise_sd=0.01)
     out2 = bg_correct(raw2, bg, df) if df is not None else bg_correct(raw2, bg)
     flags["noise_kept_when_present"] = bool(out2.attrs.get("noise_sd") == 0.01)
